@@ -45,6 +45,10 @@ def classify(f):
     units = o.get("units") or []
     ek = o.get("ek") or []
     here = units[idx] if idx < len(units) else "$"
+    if here.startswith("re.open"):
+        # a regular-expression unit is named by the set of body atoms it is made of
+        parts = here.split("+")
+        here = "re:%s(%s)" % ("/=" if parts[0] == "re.open.eq" else "/", ",".join(sorted({x[3:] for x in parts[1:] if x not in ("re.close", "re.flags")})))
     prev = ctx_class(units[idx - 1], ek[idx - 1]) if 0 < idx <= len(units) else "^"
     if ev.get("out") != "ret":
         return prev, here, "panic", ev
